@@ -470,6 +470,8 @@ func checkC15(R *Run) {
 	}
 	R.floor("pw-semantics", 4)
 	R.ruleBatchIndependent()
+	R.rule("auth-shape", "(shared with C04) the password that logs in is the stored one: Authenticate returns true only through bcrypt.CompareHashAndPassword(hash of AccountManager.Get(login), supplied password) == nil — no second source of truth (cache of earlier successes) that a password change does not reach")
+	R.ruleAuthShape()
 
 	// ---- acct-shape
 	if g := R.mustFn("(*mobius.YAMLAccountManager).Get"); g != nil {
